@@ -940,6 +940,15 @@ void vw_mute_stdout(void)
     int dn = open("/dev/null", O_WRONLY);
     if (dn >= 0) { dup2(dn, 1); close(dn); }
 }
+int vw_capture_stdout(void)
+{
+    fflush(stdout);
+    saved_stdout = dup(1);
+    int fd = memfd_create("verif-stdout", 0);
+    if (fd < 0) return -1;
+    dup2(fd, 1);
+    return fd;
+}
 void vw_unmute_stdout(void)
 {
     if (saved_stdout >= 0) { fflush(stdout); dup2(saved_stdout, 1); close(saved_stdout); saved_stdout = -1; }
@@ -1391,3 +1400,47 @@ void vs_describe(const vsop *ops, int n, vbuf *out)
         vb_u8(out, ' ');
     }
 }
+
+/* ====================================================== tree enumeration == */
+/* all ordered trees with a given number of nodes over {int, string, object, array} */
+static void sl_add(strlist *l, const char *s) { if (l->n == l->cap) { l->cap = l->cap ? l->cap * 2 : 64; l->v = (char **)realloc(l->v, l->cap * sizeof(char *)); } l->v[l->n++] = strdup(s); }
+strlist vt_enum[10]; static strlist FOREST[10];
+void vt_enum_build(int maxn, const char *LEAVES)
+{
+    sl_add(&FOREST[0], "");
+    for (int n = 1; n <= maxn; n++) {
+        if (n == 1) for (const char *q = LEAVES; *q; q++) { char t[2] = { *q, 0 }; sl_add(&vt_enum[1], t); }
+        for (size_t i = 0; i < FOREST[n - 1].n; i++) {
+            char tmp[64];
+            snprintf(tmp, sizeof tmp, "O%s)", FOREST[n - 1].v[i]); sl_add(&vt_enum[n], tmp);
+            snprintf(tmp, sizeof tmp, "A%s)", FOREST[n - 1].v[i]); sl_add(&vt_enum[n], tmp);
+        }
+        if (n == maxn) break;    /* the forests of maxn nodes are not needed */
+        for (int k = 1; k <= n; k++)
+            for (size_t i = 0; i < vt_enum[k].n; i++)
+                for (size_t j = 0; j < FOREST[n - k].n; j++) {
+                    char tmp[64];
+                    snprintf(tmp, sizeof tmp, "%s%s", vt_enum[k].v[i], FOREST[n - k].v[j]); sl_add(&FOREST[n], tmp);
+                }
+    }
+}
+vnode *vt_from_code(const char **s, int *counter)
+{
+    char ch = *(*s)++;
+    vnode *n;
+    int id = (*counter)++;
+    if (ch == 'i') { n = vt_int((id * 37) % 3 == 0 ? 300 + id : id - 2); return n; }
+    if (ch == 's') { uint8_t d[3] = { (uint8_t)('p' + id % 5), 'q', 'r' }; return vt_str(K_STR, d, (uint32_t)(id % 4 == 3 ? 0 : 1 + id % 3)); }
+    if (ch == 'b') { vnode *b = vt_new(K_BOOL); b->b = id & 1; return b; }
+    n = vt_new(ch == 'O' ? K_OBJ : K_ARR);
+    int k = 0;
+    while (**s != ')') {
+        vnode *kid = vt_from_code(s, counter);
+        if (ch == 'O') { uint8_t nm[2] = { (uint8_t)('b' + k), 'x' }; vt_setname(kid, nm, 2); }
+        vt_add(n, kid);
+        k++;
+    }
+    (*s)++;
+    return n;
+}
+
